@@ -22,6 +22,9 @@ func runC17(r *engine.Run) {
 	r.Rule("AGREE-lockstep", "see C14: the store-level repair (MergeState) hands every foreign node to the target store together with its own key")
 	r.Rule("FRESH-donor", "nodes handed out by the donor store during MergeDB are not modified (FRESH-node of C03 applied to the donor-store source)")
 	r.Rule("DOM-record", "addMissingNodeKeys appends the key of the failed access to the recorded missing keys on every path (no cap, filter or early return): every absent node a lookup hits is among the reported keys")
+	r.Rule("ERR-guard", "wherever the error of a call is compared with nil and one successor of the test is a plain return block, that successor is the error != nil edge and returns a non-nil error (the error itself, a sentinel or a constructed error); an early return handing back the error on the edge where it is nil is a swapped test")
+	r.Rule("ERR-dropped", "the error result of every repository operation (trie, node store, storage adapter/batcher methods) called here is looked at - compared, returned or stored; deliberate drops are an explicit table with reasons")
+	r.Rule("DOM-nodefound", "a node store reports a node as found only for what it holds: MemoryNodeDB.getNode returns a nil error only where its map lookup's found flag tested true; PNodeDB.GetNode decodes only where the fetched bytes tested non-empty (otherwise ErrNodeNotFound)")
 	r.NotDec = append(r.NotDec, "exactness of the reported key set for every removal subset")
 	errGetNode(r)
 	depCount(r)
@@ -35,6 +38,8 @@ func runC17(r *engine.Run) {
 	donorCovered(r)
 	lockstep(r)
 	domRecord(r, "DOM-record")
+	domNodeFound(r, "DOM-nodefound")
+	errGuard(r, "ERR-guard", "ERR-dropped", funcsOfPkg(r, pkgUtil), 40)
 }
 
 // resultValue resolves the i-th result of ret through a named-result cell
@@ -460,5 +465,69 @@ func domRecord(r *engine.Run, rule string) {
 	}
 	if n < 1 {
 		r.Anchor(rule, fmt.Errorf("unresolved anchor: returns of addMissingNodeKeys"))
+	}
+}
+
+// domNodeFound: a node store answers "found" only for what it holds: the memory
+// store returns a node with a nil error only where its map lookup hit; the
+// persistent store decodes only where the fetched bytes tested non-empty.
+func domNodeFound(r *engine.Run, rule string) {
+	n := 0
+	if f := r.Fn(rule, pkgUtil, "MemoryNodeDB", "getNode"); f != nil {
+		var found ssa.Value
+		engine.Instrs(f, func(in ssa.Instruction) {
+			if ex, ok := in.(*ssa.Extract); ok && ex.Index == 1 {
+				if lk, ok := ex.Tuple.(*ssa.Lookup); ok && lk.CommaOk {
+					found = ex
+				}
+			}
+		})
+		o := ord{}
+		for _, ret := range engine.Returns(f) {
+			if len(ret.Results) != 2 || !nilConst(resultValue(ret, 1)) {
+				continue
+			}
+			n++
+			good := false
+			if found != nil {
+				if atoms, full := engine.AtomsOn(f, ret.Block()); full {
+					if t, had := atoms[engine.ValKey(found)]; had && t {
+						good = true
+					}
+				}
+			}
+			r.Check(good, rule, o.next(fn(f)+"|success"), r.P.Pos(ret.Pos()), "a node is returned without error only where the map lookup hit",
+				"the memory store reports success on a path where its map lookup may have missed: an absent node is answered with (nil, nil) instead of ErrNodeNotFound, and present nodes may be reported absent")
+		}
+	}
+	if f := r.Fn(rule, pkgUtil, "PNodeDB", "GetNode"); f != nil {
+		engine.Instrs(f, func(in ssa.Instruction) {
+			c, ok := in.(*ssa.Call)
+			if !ok || !staticCalleeIs(c, pkgUtil, "", "CreateNode") {
+				return
+			}
+			n++
+			good := false
+			if facts, full := engine.FactsOn(f, c.Block()); full {
+				for _, ft := range facts {
+					if ft.Kind == "eq" && !ft.Truth {
+						for _, side := range [][2]ssa.Value{{ft.A, ft.B}, {ft.B, ft.A}} {
+							if lc, ok := side[0].(*ssa.Call); ok {
+								if b, ok := lc.Call.Value.(*ssa.Builtin); ok && b.Name() == "len" {
+									if k, isK := intConst(side[1]); isK && k == 0 {
+										good = true
+									}
+								}
+							}
+						}
+					}
+				}
+			}
+			r.Check(good, rule, fn(f)+"|decode", r.P.Pos(c.Pos()), "the fetched bytes are decoded only where their length tested non-zero",
+				"the persistent store decodes what it fetched without testing that anything was found: an absent key is not reported as ErrNodeNotFound")
+		})
+	}
+	if n < 2 {
+		r.Anchor(rule, fmt.Errorf("unresolved anchor: %d lookup results of the node stores", n))
 	}
 }
